@@ -10,6 +10,7 @@ See DESIGN.md section 2.
 """
 import functools
 import os
+import weakref
 from collections import Counter
 
 from dsim import HarnessError, Violation
@@ -140,6 +141,7 @@ class _Rec:
         self.hid = hid
         self.shape = shape
         self.n = 0
+        self._owner_ref = None
         if shape == "func":
             if kind == "sink":
                 def f(v, _s=self):
@@ -166,7 +168,23 @@ class _Rec:
     def handle(self):
         if self.shape == "method":
             return self.fire          # a fresh bound-method object each time, == to the others
+        if self.shape == "weakowner":
+            # a bound method of an object that nothing but the registered method keeps alive (`hub.setDataSink('A',
+            # Recorder(log).onMessage)`): the harness itself only holds a weak reference to the owner
+            o = self._owner_ref() if self._owner_ref is not None else None
+            if o is None:
+                o = _Owner(self)
+                self._owner_ref = weakref.ref(o)
+            return o.call
         return self._h
+
+
+class _Owner:
+    def __init__(self, rec):
+        self.rec = rec
+
+    def call(self, *a):
+        return self.rec.fire(*a)
 
 
 class HubModel:
@@ -974,8 +992,8 @@ def gen_trace(seed):
             e["tx"] = pick_weighted(rc, choices)
     cfg = {"hubs": hubs, "peers": peers,
            "inbox_cap": rc.choice([1, 2, 64, 64, 64]),
-           "sink_shapes": [rc.choice(["func", "method", "partial"]) for _ in range(3)],
-           "source_shapes": [rc.choice(["func", "method", "partial"]) for _ in range(3)]}
+           "sink_shapes": [rc.choice(["func", "method", "partial", "weakowner"]) for _ in range(3)],
+           "source_shapes": [rc.choice(["func", "method", "partial", "weakowner"]) for _ in range(3)]}
     if rc.random() < 0.25:
         # one sink that uses the hub while it is being called (polls or sends on some endpoint of hub 0)
         re = [None, None, None]
